@@ -41,6 +41,21 @@ theorem lazy_and_or (env : Env) (rp : List Nat) (l r : Expr) (st st1 : St) (ev :
       eval env rp (.or l r) st = (.ok (.bool true), st1, ev)) := by
   constructor <;> (intro h; simp [eval, h])
 
+/-- … and when the left operand does NOT decide, the right operand is evaluated and ITS outcome decides: its own error is
+    reported unchanged (a user function's failure stays that failure — it does not turn into a type error), a boolean is the
+    result, anything else is the type error -/
+theorem reached_right_operand_decides (env : Env) (rp : List Nat) (l r : Expr) (st st1 st2 : St) (x : Err) (b : Bool)
+    (ev ev2 : List Event) :
+    (eval env (0 :: rp) l st = (.ok (.bool true), st1, ev) → eval env (1 :: rp) r st1 = (.err x, st2, ev2) →
+      eval env rp (.and l r) st = (.err x, st2, ev ++ ev2)) ∧
+    (eval env (0 :: rp) l st = (.ok (.bool false), st1, ev) → eval env (1 :: rp) r st1 = (.err x, st2, ev2) →
+      eval env rp (.or l r) st = (.err x, st2, ev ++ ev2)) ∧
+    (eval env (0 :: rp) l st = (.ok (.bool true), st1, ev) → eval env (1 :: rp) r st1 = (.ok (.bool b), st2, ev2) →
+      eval env rp (.and l r) st = (.ok (.bool b), st2, ev ++ ev2)) ∧
+    (eval env (0 :: rp) l st = (.ok (.bool false), st1, ev) → eval env (1 :: rp) r st1 = (.ok (.bool b), st2, ev2) →
+      eval env rp (.or l r) st = (.ok (.bool b), st2, ev ++ ev2)) := by
+  refine ⟨?_, ?_, ?_, ?_⟩ <;> (intro h1 h2; simp [eval, h1, h2])
+
 /-- `==` / `!=`: the right operand is not evaluated when the left is None -/
 theorem lazy_eq_none (env : Env) (rp : List Nat) (l r : Expr) (st st1 : St) (ev : List Event)
     (h : eval env (0 :: rp) l st = (.ok .none, st1, ev)) :
